@@ -195,7 +195,12 @@ class IRAFStarFinder(StarFinderBase):
                                      mask=mask,
                                      exclude_border=self.exclude_border)
         else:
-            xypos = self.xycoords
+            # the source cutouts are centered on integer pixels; use the
+            # pixel that contains each position (as astropy's
+            # extract_array does) so that the centroids, which are
+            # computed relative to the cutout, are not shifted by the
+            # fractional part of the input positions
+            xypos = np.ceil(self.xycoords - 0.5).astype(int)
 
         if xypos is None:
             warnings.warn('No sources were found.', NoDetectionsWarning)
